@@ -3,6 +3,7 @@
   which is reported as "finding no longer reproduces", not as a violation).
 -/
 import Gozod.Proofs.C13
+import Gozod.Proofs.C13Typed
 namespace Gozod.C13W
 open Gozod.Tags Gozod.GenChain Gozod.Gen Gozod.C13
 
@@ -34,5 +35,11 @@ theorem c13_class_witnesses :
   intro b hb c hc hk
   have := List.all_eq_true.mp (List.all_eq_true.mp h b hb) c hc
   simpa [hk] using this
+
+/-- the converse of `C13.c13_illtyped_rows_are_open`: every listed does-not-compile class still has a row of the kind × tag
+    table that fails for exactly that reason — the `open:` lines of known-findings.txt are EXACTLY the classes of rows that do
+    not type-check. Stops checking when a fix lands (reported as "a known finding no longer reproduces"): the line becomes `fixed:`. -/
+theorem c13_open_compile_classes_exact :
+    Gozod.Gen.openCompileClasses.all (fun c => (illClasses WF).contains c) = true := by decide +kernel
 
 end Gozod.C13W
